@@ -36,7 +36,10 @@ def masked_count(f, ref):
 def is_shifted_one(f, ref):
     """ref == 1 << sext(load n_threads_bits)"""
     ins = f.get(f.strip(ref)) if isinstance(ref, str) else None
-    return ins is not None and ins.op == 'shl' and const_int(ins.ops[0]) == 1 and is_load_of(f, ins.ops[1], BITS)
+    # the unit must be computed in the 64-bit width of the state word (1L << bits): a 32-bit shift
+    # overflows for n_threads >= 2^30 and turns the waiter unit into a negative number
+    return ins is not None and ins.op == 'shl' and ins.ty == 'i64' and const_int(ins.ops[0]) == 1 and \
+        is_load_of(f, ins.ops[1], BITS)
 
 
 def rule1_wait(ctx, v):
@@ -106,7 +109,7 @@ def rule2_dec(ctx, v):
         ctx.ob('C07.2', 'wake only on the last decrement', any(f.on_edge(ic.id, ic.pred == 'eq', w) for ic in last),
                'wake on the edge n_decs == n_threads-1', loc=w.loc)
         n = f.get(f.strip(w.args[3]))
-        ok = n is not None and n.op in ('ashr', 'lshr') and f.sources(n.ops[0]) == f.sources(s) and is_load_of(f, n.ops[1], BITS)
+        ok = n is not None and n.op in ('ashr', 'lshr') and n.ty == 'i64' and f.sources(n.ops[0]) == f.sources(s) and is_load_of(f, n.ops[1], BITS)
         ctx.ob('C07.2', 'wakes the waiters recorded in the replaced word', ok,
                'the number woken is (s >> n_threads_bits) with s the value this decrement replaced: waiters announced '
                'later see the completed count themselves', loc=w.loc, detail=expr_str(f, w.args[3]))
@@ -135,7 +138,7 @@ def rule3_fields(ctx, v):
         if m is not None and m.op in ('sub', 'add'):
             sh = i.get(i.strip(m.ops[0]))
             c = const_int(m.ops[1])
-            if sh is not None and sh.op == 'shl' and const_int(sh.ops[0]) == 1 and i.sources(sh.ops[1]) == i.sources(b) and \
+            if sh is not None and sh.op == 'shl' and sh.ty == 'i64' and const_int(sh.ops[0]) == 1 and i.sources(sh.ops[1]) == i.sources(b) and \
                     ((m.op == 'sub' and c == 1) or (m.op == 'add' and c == -1)):
                 ok = True
         ctx.ob('C07.3', 'mask = (1 << b) - 1 with the stored b', ok, 'mask and shift describe the same field split', loc=sm[0].loc,
@@ -188,6 +191,8 @@ MUTANTS = [
      'edits': [(SYNC, "    myth_block_on_queue(jc->sleep_q, 0);\n    assert((jc->state & jc->state_mask) == jc->n_threads);\n  }", "    myth_block_on_queue(jc->sleep_q, 0);\n    return 0;\n  }")]},
     {'name': 'wait announces with the wrong unit', 'expect': 'C07.1',
      'edits': [(SYNC, "    long new_s = s + (1L << jc->n_threads_bits);", "    long new_s = s + (1L << jc->n_threads);")]},
+    {'name': 'waiter unit computed in 32 bits (seed C07/m3)', 'expect': 'C07.1',
+     'edits': [(SYNC, "    long new_s = s + (1L << jc->n_threads_bits);", "    long new_s = s + (1 << jc->n_threads_bits);")]},
     {'name': 'init mask one bit too narrow', 'expect': 'C07.3',
      'edits': [(SYNC, "  long mask = (1L << b) - 1;\n  myth_sleep_queue_init(jc->sleep_q);", "  long mask = (1L << (b - 1)) - 1;\n  myth_sleep_queue_init(jc->sleep_q);")]},
     {'name': 'last decrement detected one early', 'expect': 'C07.2',
